@@ -25,6 +25,9 @@ def _worker(args):
     from engine.oblig import Ctx
     from engine.nir2smt import Unsupported
 
+    import warnings
+
+    warnings.filterwarnings("ignore")
     mod = load_contract(pid)
     ctx = Ctx(pid, cfg, tier, seed)
     out = {"cfg": cfg, "status": "ok", "canary": canary}
@@ -203,6 +206,9 @@ def check(pid, tier, only_cfg=None, quiet=False):
         ][:60],
         "known_findings_hit": [f"{f['what']} @ {r['name']} {r['cfg']}" for f, r in known_hits][:20],
         "canaries": canary_report,
+        "skipped_configurations": {"count": sum(1 for res in results if any(n.startswith("skipped") for n in res["notes"])),
+                                   "examples": [n for res in results for n in res["notes"] if n.startswith("skipped")][:5]},
+        "notes": [n for res in results for n in res["notes"] if not n.startswith("skipped")][:20],
     }
     if bounded:
         coverage["evaluations"] = sum(b["evaluations"] for b in bounded)
